@@ -160,6 +160,7 @@ func TestVerif_C19(t *testing.T) {
 	ranges := []rng{
 		{base2 - 26, base2 - 14}, {base2 - 12, base2 - 1}, {base2 - 6, base2 + 6}, {base2, base2 + 11}, {base2 + 8, base2 + 23},
 		{base2 - 3, base2 - 3}, {base2 + 5, base2 + 4},
+		{base2 - 200, base2 + 11}, // starts more than the default window (100 slots) before the epoch boundary and ends behind it
 	}
 	T, F := true, false
 	flags := []*bool{nil, &T, &F}
